@@ -9,7 +9,7 @@ from hypothesis import strategies as st
 
 from .. import arr as A
 from .. import unit as U
-from ..core import Failure, drive
+from ..core import sstr, Failure, drive
 from ..gen import arrays as G
 from ..ref import commands as R
 
@@ -266,7 +266,7 @@ def check_csv(case, rec):
             arrays = [A.make_array(c) for c in case["cols"]]
             kind, _ = U.reference(case["cmd"], arrays, case["params"]) if not case["fuzzy"] else ("skip", None)
             if kind == "cells":
-                fails.append(Failure(sig + "|raises:" + A.exc_name(ra), str(ra)[:300]))
+                fails.append(Failure(sig + "|raises:" + A.exc_name(ra), sstr(ra)[:300]))
         return fails
     union = None
     for c in case["cols"]:
